@@ -60,6 +60,8 @@ class Check(BaseCheck):
                 yield dict(kind=kind, v=c["v"], t=c["t"], vids=vids, m=float(rng.uniform(0.1, 5.0)), name=c["name"], reuse=bool(rng.random() < 0.3), pres=c.get("pres"), vdtype=c.get("vdtype"))
         from .. import corr_fem
         for c in corr_fem.aniso_meshes(seed + 73, max(3, n_tri // 5)):
+            if c["name"] == "sliver":
+                continue          # float32 solve on a sliver mesh: conditioning, not the property
             n = len(c["v"])
             a = c["aniso"]
             yield dict(kind="tri", v=c["v"], t=c["t"], vids=[int(x) for x in rng.choice(n, size=int(rng.integers(1, 4)))],
@@ -120,6 +122,9 @@ class Check(BaseCheck):
             tmode = ["scalar", "vec", "row", "one"][k % 4]
             ts = dict(scalar=float(rng.uniform(0.1, 2)), vec=rng.uniform(0.1, 2, size=int(rng.integers(2, 5))),
                       row=rng.uniform(0.1, 2, size=(1, 3)), one=rng.uniform(0.1, 2, size=1))[tmode]
+            if k % 3 == 2:           # spectra of small meshes: eigenvalues ~1e4..1e6 with correspondingly short times (lambda*t stays O(1))
+                es = 10.0 ** rng.uniform(3, 6); evals = evals * es
+                ts = ts / es if np.isscalar(ts) else np.asarray(ts) / es
             ev_in = evals if k % 2 else evals.reshape(-1, 1)
             xs = rng.choice(nv, size=int(rng.integers(1, 4)))
             case = dict(evecs=evecs, evals=evals, n=n, q=q, t=np.atleast_1d(np.asarray(ts, dtype=float)).reshape(-1), xs=xs, tmode=tmode, name="kernel")
@@ -143,8 +148,9 @@ class Check(BaseCheck):
         rng = gen.rng_for(self.seed, "c07ks")
         for k in range(20):
             nv, ne = int(rng.integers(3, 9)), int(rng.integers(2, 7))
-            yield dict(name="kernel", evecs=rng.normal(size=(nv, ne)), evals=np.sort(np.abs(rng.normal(size=ne))), n=int(rng.integers(1, ne + 1)),
-                       q=int(rng.integers(0, nv)), t=rng.uniform(0.1, 2, size=int(rng.integers(1, 5))), xs=rng.choice(nv, size=2), tmode="vec")
+            es = 1.0 if k % 3 else 10.0 ** rng.uniform(3, 6)
+            yield dict(name="kernel", evecs=rng.normal(size=(nv, ne)), evals=es * np.sort(np.abs(rng.normal(size=ne))), n=int(rng.integers(1, ne + 1)),
+                       q=int(rng.integers(0, nv)), t=rng.uniform(0.1, 2, size=int(rng.integers(1, 5))) / es, xs=rng.choice(nv, size=2), tmode="vec")
 
     def oracle(self, case):
         if case.get("name") == "kernel":
